@@ -50,6 +50,24 @@ def _apply_ops(envs, ops):
             envs = envs.take(op[1])
         elif name == "batch":
             envs = envs.batch(op[1])
+        elif name == "noise":              # ["noise", "reward"|"context", seed or [seeds]]
+            envs = envs.noise(**{op[1]: (0, 0.5)}, seed=op[2])
+        elif name == "riffle":
+            envs = envs.riffle(op[1], op[2])
+        elif name == "reservoir":          # ["reservoir", n, seed or [seeds]]
+            envs = envs.reservoir(op[1], op[2])
+        elif name == "scale":
+            envs = envs.scale("min", "minmax")
+        elif name == "cycle":
+            envs = envs.cycle(op[1])
+        elif name == "slice":
+            envs = envs.slice(op[1], op[2])
+        elif name == "binary":
+            envs = envs.binary()
+        elif name == "sparse":
+            envs = envs.sparse()
+        elif name == "materialize":
+            envs = envs.materialize()
         else:
             raise ValueError(op)
     return envs
@@ -65,10 +83,18 @@ def _env_objects(kind, r):
             return [base]
         envs = Environments(base)
     else:
-        envs = Environments.from_linear_synthetic(r["n"], n_actions=r["na"], n_context_features=2, n_action_features=2, seed=r["seed"])
+        src = r.get("src", "linear")
+        if src == "neighbors":
+            envs = Environments.from_neighbors_synthetic(r["n"], n_actions=r["na"], n_context_features=2, n_action_features=2, n_neighborhoods=5, seed=r["seed"])
+        elif src == "kernel":
+            envs = Environments.from_kernel_synthetic(r["n"], n_actions=r["na"], n_context_features=2, n_action_features=2, n_exemplars=3, seed=r["seed"])
+        elif src == "mlp":
+            envs = Environments.from_mlp_synthetic(r["n"], n_actions=r["na"], n_context_features=2, n_action_features=2, seed=r["seed"])
+        else:
+            envs = Environments.from_linear_synthetic(r["n"], n_actions=r["na"], n_context_features=2, n_action_features=2, seed=r["seed"])
         if r.get("logged"):
             from coba.learners import RandomLearner
-            envs = envs.logged(RandomLearner(seed=r.get("log_seed", 1)))
+            envs = envs.logged(RandomLearner(seed=r.get("log_seed", 1)), *([r["logged_seed"]] if r.get("logged_seed") is not None else []))
     envs = _apply_ops(envs, r.get("prefix", []))
     out = []
     for br in r.get("branches", [[]]):
@@ -78,7 +104,10 @@ def _env_objects(kind, r):
 
 def _learner(kind, r):
     if kind == "toy":
-        from props.c01_components import ToyLearner
+        from props.c01_components import ToyLearner, ToyLearnerF
+        if r.get("finish"):
+            return ToyLearnerF(r["tag"], r.get("mult", 1), r.get("fp"), r.get("fl"), bool(r.get("params_fail")), bool(r.get("info")),
+                               bool(r.get("nocopy")), r["finish"])
         return ToyLearner(r["tag"], r.get("mult", 1), r.get("fp"), r.get("fl"), bool(r.get("params_fail")), bool(r.get("info")), bool(r.get("nocopy")))
     t = r["type"]
     if t == "eps":
@@ -569,7 +598,8 @@ def is_plain(case):
 
 
 def logged_exceptions(log):
-    return len(markers(log)) + sum("cannot pickle" in l for l in log)
+    """exceptions of tasks (an error raised by a learner's finish() hook after its rows were recorded is not one)"""
+    return len([m for m in markers(log) if not m.endswith(":finish")]) + sum("cannot pickle" in l for l in log)
 
 
 def compare_with_model(driver, case, obs, run, o, label=""):
@@ -738,6 +768,8 @@ def n_objects(recipe):
         for op in recipe.get("prefix", []) + br:
             if op[0] == "shuffle":
                 k *= op[1]
+            if op[0] in ("noise", "reservoir") and isinstance(op[2], list):
+                k *= len(op[2])
         n += k
     return n
 
@@ -788,6 +820,8 @@ def gen_toy(rng, tier, real_p=0.03, fail_bias=1.0, share_bias=1.0):
             r["fl"] = rng.randint(0, 3)
         if rng.chance(0.05 * fail_bias):
             r["params_fail"] = True
+        if rng.chance(0.25):
+            r["finish"] = rng.choice(["mark", "mark", "raise", "lazy"])     # a finish() hook (called on the evaluated copy)
         if rng.chance(0.3):
             r["info"] = True          # reports through the process-global CobaContext.learning_info
         lrns.append(r)
@@ -842,8 +876,31 @@ def gen_toy(rng, tier, real_p=0.03, fail_bias=1.0, share_bias=1.0):
     return case
 
 
+def gen_seeded_filter(rng):
+    """a built-in environment filter whose (non-default) arguments have to survive pickling / deep copies"""
+    k = rng.below(10)
+    if k < 4:
+        seeds = rng.choice([[5, 6], [3], 7, 9, [2, 8]])
+        return ["noise", rng.choice(["reward", "reward", "context"]), seeds]
+    if k < 5:
+        return ["riffle", rng.randint(2, 4), rng.randint(2, 9)]
+    if k < 7:
+        return ["reservoir", rng.randint(3, 8), rng.choice([4, [2, 5], 7])]
+    if k < 8:
+        return ["scale"]
+    if k < 9:
+        return ["slice", rng.randint(0, 2), rng.randint(4, 10)]
+    return rng.choice([["binary"], ["cycle", rng.randint(1, 4)], ["materialize"]])
+
+
 def gen_builtin_ops(rng):
     prefix, branches = gen_ops(rng)
+    if rng.chance(0.45):
+        f = gen_seeded_filter(rng)
+        if rng.chance(0.5):
+            prefix = [f] + prefix            # in front of chunk()/cache(): shared by the whole fan-out
+        else:
+            branches = [[f] + list(br) for br in branches]
     r = rng.below(100)
     if r < 22:
         # the same source un-batched and batched in one experiment (learners that are not batch aware need coba's fallback)
@@ -857,10 +914,13 @@ def gen_builtin(rng, tier, real_p=0.03):
     envs = []
     any_logged = False
     for t in range(rng.choice([1, 1, 2])):
-        r = {"src": "linear", "n": rng.choice([4, 8, 12, 30]), "na": rng.choice([2, 3, 4]), "seed": rng.randint(1, 5)}
+        r = {"src": rng.choice(["linear", "linear", "linear", "neighbors", "kernel", "mlp"]), "n": rng.choice([4, 8, 12, 30]),
+             "na": rng.choice([2, 3, 4]), "seed": rng.randint(1, 5)}
         if rng.chance(0.45):
             r["logged"] = True
             r["log_seed"] = rng.randint(1, 4)
+            if rng.chance(0.5):
+                r["logged_seed"] = rng.choice([2.5, 7, 0.5])
             any_logged = True
         r["prefix"], r["branches"] = gen_builtin_ops(rng)
         envs.append(r)
@@ -967,7 +1027,7 @@ def shrink_case(case):
         xs = case[name]
         for k in range(len(xs)):
             r = xs[k]
-            for fld in ("fail_at", "fp", "fl", "skip_mult", "fail_learn_at"):
+            for fld in ("fail_at", "fp", "fl", "skip_mult", "fail_learn_at", "finish", "logged_seed"):
                 if r.get(fld) is not None:
                     yield dict(case, **{name: xs[:k] + [dict(r, **{fld: None})] + xs[k + 1:]})
             for fld in ("params_fail", "info", "nocopy"):
@@ -1007,6 +1067,8 @@ def feature_tags(case):
             tags.append("toy:eval-info-mode-%d" % m)
         if any(r.get("nocopy") for r in case["lrns"]):
             tags.append("toy:uncopyable-learner")
+        for k in sorted({r["finish"] for r in case["lrns"] if r.get("finish")}):
+            tags.append("toy:finish-" + k)
     return tags
 
 
